@@ -24,7 +24,12 @@ def run(chk, tier, seed, replay):
     if replay:
         case = json.load(open(replay))["case"]
         chk.case("replay")
-        if "hist" in case:
+        if "hist" in case and "targets" in case:
+            from ..adapters import alignment as aad
+            bad = aad.replay(case["src"], case["targets"], case["hist"])
+            if bad:
+                chk.mismatch(case, bad)
+        elif "hist" in case:
             from ..adapters import transforms as ad
             bad, _ = ad.replay(case["pool"], case["pts"], case["hist"])
             chk.sample(case["hist"])
@@ -43,3 +48,6 @@ def run(chk, tier, seed, replay):
         c03._run_file(chk, out, "pinv_depth2")
         run_cases(chk, "inv3", "TransCases", "MC_TransCases_c04.cfg", s, transcases.run_case)
         run_cases(chk, "warps", "Warps", "MC_Warps_c04.cfg", s, warps.run_case)
+        # inverses interleaved with retargeting (the inverse must follow the CURRENT state of an alignment)
+        from . import c08
+        c08.run_histories(chk, s, "pinv_after_retarget", "MC_Alignment_pinv.cfg", sample=False)
